@@ -535,6 +535,9 @@ func (m *Mutex) TryLock() bool {
 	if s == nil {
 		return m.m.TryLock()
 	}
+	// whether the lock is free depends on the schedule: a scheduling point like Lock, never blocking
+	s.cur.kind, s.cur.label = opYield, "trylock"
+	s.point()
 	if m.locked {
 		return false
 	}
@@ -545,7 +548,17 @@ func (m *Mutex) TryLock() bool {
 	return true
 }
 
+// UnlockPoints adds a scheduling point before every Unlock. Set (by generated code) only when the
+// instrumented source uses TryLock, whose result depends on who is inside a critical section.
+var UnlockPoints bool
+
 func (m *Mutex) Unlock() {
+	if UnlockPoints {
+		if s := current(); s != nil && !s.aborting {
+			s.cur.kind, s.cur.label = opYield, "unlock"
+			s.point()
+		}
+	}
 	s := current()
 	if s == nil {
 		m.m.Unlock()
